@@ -55,18 +55,13 @@ Print Assumptions C18_accept_strict_sound.
    SINGLE variable, "1e400" for a DOUBLE (stored as infinity) *)
 Theorem C18_accept_only_wellformed_refuted :
   exists ts l st st', spec_accept true ts l = None /\ push_vars l (map ty_id ts) st = PVOk st'.
-Proof.
-  exists [VInt; VSingle], [49; 95; 48; 44; 110; 97; 110], [], [CI 10; CS FNaN].
-  split; vm_compute; reflexivity.
-Qed.
+Proof. exact accept_only_wellformed_refuted. Qed.
 Print Assumptions C18_accept_only_wellformed_refuted.
 
 Theorem C18_accept_overflow_refuted :
   exists l st', spec_accept true [VDouble] l = None /\
                 push_vars l [ty_id VDouble] [] = PVOk st'.
-Proof.
-  exists [49; 101; 52; 48; 48], [CD (FInf false)]. split; vm_compute; reflexivity.
-Qed.
+Proof. exact accept_overflow_refuted. Qed.
 Print Assumptions C18_accept_overflow_refuted.
 
 (* accepted fields end up on the stack first field on top, converted to their
@@ -95,7 +90,19 @@ Theorem C18_reject_no_effect_last_partial : forall ts t fs f l st,
 Proof. exact reject_last_clean. Qed.
 Print Assumptions C18_reject_no_effect_last_partial.
 
-(* then: Redo, the prompt again, and the statement runs on as if just started *)
+(* the same at the level of the statement: "Redo from start", the prompt
+   again, and the run continues from the unchanged stack *)
+Theorem C18_reject_no_effect_partial : forall ts t fs f l rest s st,
+  i_tys s = ts ++ [t] ->
+  length (spec_fields l) <> length (i_tys s) \/
+  (spec_fields l = fs ++ [f] /\ spec_value false t f = None) ->
+  exec_input (l :: rest) (stack_at_io s st) =
+  i_pre (redo_block (i_question s) (i_prompt s) (flag (i_same_line s)) l)
+        (exec_input rest (stack_at_io s st)).
+Proof. exact reject_no_effect_partial. Qed.
+Print Assumptions C18_reject_no_effect_partial.
+
+(* generally: whenever the rejected line left nothing behind *)
 Theorem C18_reject_restart_partial : forall s l rest st,
   i_tys s <> [] ->
   spec_accept false (i_tys s) l = None ->
@@ -109,10 +116,19 @@ Print Assumptions C18_reject_restart_partial.
 (* D13: "x,5" for two INTEGER variables is rejected and the converted 5 stays *)
 Theorem C18_reject_no_effect_refuted :
   exists tys l st st', push_vars l tys st = PVReject st' /\ st' <> st.
-Proof.
-  exists [1; 1], [120; 44; 53], [], [CI 5]. split; [vm_compute; reflexivity | discriminate].
-Qed.
+Proof. exact reject_no_effect_refuted. Qed.
 Print Assumptions C18_reject_no_effect_refuted.
+
+(* so the final state after a rejected and an accepted line is NOT that of the
+   accepted line alone ("x,5" then "1,2" for two INTEGER variables) *)
+Theorem C18_retry_state_refuted :
+  exists s bad good st,
+    i_tys s <> [] /\
+    spec_accept false (i_tys s) bad = None /\
+    ires_stack (exec_input [bad; good] (stack_at_io s st)) <>
+    ires_stack (exec_input [good] (stack_at_io s st)).
+Proof. exact retry_state_refuted. Qed.
+Print Assumptions C18_retry_state_refuted.
 
 (* the repaired code: every rejected line leaves the stack unchanged *)
 Theorem C18_reject_no_effect_fixed : forall l tys st st',
